@@ -61,7 +61,7 @@ def check_one(ctx, key: str, n: int, seed: int) -> str | None:
     except Exception as exc:
         ctx.violation("not-a-complete-game", f"{key}: get_values() raised {type(exc).__name__}: {exc}", case)
         return None
-    arr = np.asarray(values)
+    arr = np.array(values, copy=True)      # a copy: get_values() may be a view of the game's own table
     if npl != n or arr.shape != (1 << n,):
         ctx.violation("wrong-player-count", f"{key}: number_of_players={npl}, {arr.shape} values, requested n={n}", case)
         return None
@@ -86,6 +86,9 @@ def check_one(ctx, key: str, n: int, seed: int) -> str | None:
     d = digest(v)
     if not exempt_from_seeding(key):
         try:
+            if seed % 2 == 0 and hasattr(g, "set_values"):
+                g.set_values(np.zeros(1 << n))          # whatever the caller does to a returned game must not leak into later calls
+                ctx.count("first_result_mutated_before_second_call")
             d2 = digest(call(key, n, seed).get_values())
             ctx.count("determinism_pairs_in_process")
             if d2 != d:
